@@ -1,4 +1,4 @@
 ---------------------------- MODULE MC_ShrexEds ----------------------------
 EXTENDS ShrexEds
-AllKinds == {"app", "hdr", "honest", "trunc", "append", "swap", "flip", "replace", "dup", "allB", "rotate", "zeros", "craft"}
+AllKinds == {"app", "hdr", "honest", "trunc", "append", "swap", "flip", "replace", "dup", "allB", "rotate", "zeros", "craft", "pad", "allpad"}
 =============================================================================
